@@ -6,7 +6,7 @@ use crate::real::*;
 use crate::refmodel::*;
 use crate::universe::*;
 
-const SENTS: [&str; 7] = ["", "a", "ab c", "abc ", " ", "cab", "a  b"];
+const SENTS: [&str; 7] = ["", "a", "ab c", "abc ", " ", "cab", "abcdefghijklmnopqrstuvwxyzzz"];
 
 /// Per-sentence reference counts: (left id counts, right id counts), one count per
 /// (predecessor node, node) pair of the reference lattice plus the EOS pairs.
@@ -56,6 +56,9 @@ pub fn run(tier: Tier) -> i32 {
     us.retain(|u| {
         (u.name.contains("matrix3x3s1") || u.name.contains("matrix3x4s2") || u.name.contains("RawK3") || u.name.contains("DualK9x1/5x3")) && !u.name.contains("extreme") && !u.name.contains("multibyte")
     });
+    let mut big = crate::universe::u_big(tier);
+    big.retain(|u| u.name.contains("big/conn-ids"));
+    us.extend(big);
     let depth = tier.pick(3, 4);
     let seqs = all_seqs(SENTS.len(), depth);
     let tasks: Vec<(usize, bool)> = (0..us.len()).flat_map(|i| [(i, false), (i, true)]).collect();
